@@ -7,8 +7,8 @@
 set -e
 VERIF="$(cd "$(dirname "$0")/.." && pwd)"
 REPO="${VERIF_REPO:-/repo}"
-TARGET="$VERIF/.build/wheel"
-STAGE="$VERIF/.build/pystage"
+TARGET="${VERIF_WHEEL_TARGET:-$VERIF/.build/wheel}"
+STAGE="${VERIF_PYSTAGE:-$VERIF/.build/pystage}"   # ph.py honours VERIF_PYSTAGE too
 PY="$(pyenv which python3 2>/dev/null || command -v python3)"
 (cd "$REPO" && CARGO_NET_OFFLINE=true CARGO_TARGET_DIR="$TARGET" PYO3_PYTHON="$PY" \
     cargo build -p clvm_rs --offline 1>&2)
